@@ -31,8 +31,15 @@ are three sufficient conditions under which threads cannot disturb each other th
   H12 a temporary patch of a shared object (save / set / restore) runs under a lock.
 A failed condition is `unknown` until the native replayer exhibits a schedule: two threads under a controlled scheduler
 (sys.settrace), one preemption at every line of the functions that touch the state (H9, H10), or two context switches at every
-pair of lines of the patching context manager (H12).  On /repo HEAD H9a, H9b and H12 fail and are reproduced: recorded in
-known_findings.json with proposed_fixes/C15_1..3.diff.
+pair of lines of the patching context manager (H12).  H9a and H9b were repaired in /repo (fix: commits); H12 still fails on
+/repo HEAD and is reproduced: recorded in known_findings.json with proposed_fixes/C15_3.diff.
+
+**Robustness (round 3).**  Obligations follow the data flow, not the text: stores, guards and foreign mutations are followed into
+private helpers (a helper's store is "after a miss" if every call site is; a helper's setattr acts for the function that names the
+patched object), bulk publications are read through comprehensions / staging dicts / helper returns, keys and dependencies of a
+helper are lifted to its call sites, obligation ids name roles and indices instead of private names, and whatever is decided by an
+over-approximation or by recognising a shape is `unknown` when it fails -- the native replayer (histories, damaged archives,
+package-state snapshots, schedules) decides.  See ENGINE.md "C15 round 3".
 """
 import ast
 
@@ -152,6 +159,17 @@ def patch_target_shapes(repo=None):
     for n in ast.walk(f):
         if isinstance(n, ast.Return) and n.value is not None:
             v = n.value
+            if isinstance(v, ast.Tuple) and len(v.elts) == 2 and isinstance(v.elts[0], ast.Name):
+                # targets = [(mod, "name"), ...]; return targets, make_wrapper   (bound once, never mutated)
+                nm = v.elts[0].id
+                binds = [a for a in ast.walk(f) if isinstance(a, (ast.Assign, ast.AnnAssign)) and any(isinstance(t, ast.Name) and t.id == nm
+                         for t in (a.targets if isinstance(a, ast.Assign) else [a.target]))]
+                touched = [c for c in ast.walk(f) if isinstance(c, ast.Call) and isinstance(c.func, ast.Attribute) and isinstance(c.func.value, ast.Name)
+                           and c.func.value.id == nm]
+                cands = [a.value for a in binds if a.lineno < n.lineno and isinstance(a.value, ast.List)]
+                if cands and not touched:
+                    near = max(cands, key=lambda e: e.lineno)
+                    v = ast.Tuple(elts=[near, v.elts[1]], ctx=ast.Load())
             if isinstance(v, ast.Tuple) and len(v.elts) == 2 and isinstance(v.elts[0], ast.List):
                 items = []
                 for e in v.elts[0].elts:
@@ -503,12 +521,21 @@ def policy(repo, tier):
     as_with = 0
     for (g, call) in sites_cm:
         pm = O.parents_of(g)
-        if isinstance(pm.get(id(call)), ast.withitem):
+        par = pm.get(id(call))
+        if isinstance(par, ast.withitem):
+            as_with += 1
+        elif isinstance(par, ast.Assign) and len(par.targets) == 1 and isinstance(par.targets[0], ast.Name):
+            # cm = patcher(); with cm: ...   -- every use of the local is a with-item
+            nm = par.targets[0].id
+            uses = [n for n in g.own if isinstance(n, ast.Name) and n.id == nm and isinstance(n.ctx, ast.Load)]
+            if uses and all(isinstance(pm.get(id(u)), ast.withitem) for u in uses):
+                as_with += 1
+        elif isinstance(par, ast.Call) and isinstance(pm.get(id(par)), ast.withitem) and O.dotted(par.func).endswith("enter_context"):
             as_with += 1
     cm_fn = an.fns.get(cm_key) if cm_key else None
     G("C15/pdf_extractor.py::<char-map-patcher>/policy#used-only-as-with-item",
       cm_fn is not None and len(sites_cm) >= 1 and as_with == len(sites_cm) and not O.referenced_elsewhere(an, cm_fn),
-      f"{cm_key[1] if cm_key else '?'}: {as_with}/{len(sites_cm)} uses are with-items", PDF, definite=cm_fn is not None and as_with != len(sites_cm))
+      f"{cm_key[1] if cm_key else '?'}: {as_with}/{len(sites_cm)} uses are with-items", PDF, definite=False)
 
     # ---- foreign objects (other libraries, the interpreter): who mutates them, on whose behalf (root = where the object is named)
     xm = []
